@@ -86,3 +86,80 @@ func VerifC16_OperationPairs() {
 		verifConcurrently(label, func() { SetCsCapacity(5) }, func() { cs.csReplacement.EvictEntries() })
 	}
 }
+
+// Lookup atomicity: while one table operation runs, a forwarding-thread lookup executed at any point where the
+// operation has released its locks must return, for every name, the next-hop set of the state before or of the
+// state after the operation - never an empty, partial or fallen-back list.
+type verifHop struct{ face, cost uint64 }
+
+type verifC16Snap [3][]verifHop
+
+func verifC16Snapshot() verifC16Snap {
+	var s verifC16Snap
+	for i, n := range []string{"/a", "/a/b", "/a/b/c"} {
+		for _, nh := range FibStrategyTable.FindNextHopsEnc(verifC16Name(n)) {
+			s[i] = append(s[i], verifHop{nh.Nexthop, nh.Cost})
+		}
+	}
+	return s
+}
+
+func verifC16SameSet(a, b []verifHop) bool {
+	if len(a) != len(b) {
+		return false
+	}
+	for _, x := range a {
+		found := false
+		for _, y := range b {
+			if x == y {
+				found = true
+			}
+		}
+		if !found {
+			return false
+		}
+	}
+	return true
+}
+
+var verifC16AtomicOps = []string{"rib-reregister-cost", "rib-register-new-face", "rib-unregister", "face-cleanup", "fib-update-cost"}
+
+func VerifC16_LookupAtomicity() {
+	verifC16Setup()
+	var op func()
+	switch verifChoice("op", len(verifC16AtomicOps)) {
+	case 0:
+		op = func() { Rib.AddEncRoute(verifC16Name("/a"), &Route{FaceID: 1, Cost: 7, Flags: RouteFlagChildInherit}) }
+	case 1:
+		op = func() { Rib.AddEncRoute(verifC16Name("/a/b"), &Route{FaceID: 3, Cost: 5}) }
+	case 2:
+		op = func() { Rib.RemoveRouteEnc(verifC16Name("/a/b"), 2, 0) }
+	case 3:
+		op = func() { Rib.CleanUpFace(2) }
+	case 4:
+		op = func() { FibStrategyTable.InsertNextHopEnc(verifC16Name("/a"), 1, 9) }
+	}
+	pre := verifC16Snapshot()
+	var seen []verifC16Snap
+	verifAtEveryRelease(op, func() {
+		s := verifC16Snapshot()
+		if n := len(seen); n > 0 {
+			same := true
+			for i := range s {
+				if !verifC16SameSet(s[i], seen[n-1][i]) {
+					same = false
+				}
+			}
+			if same {
+				return
+			}
+		}
+		seen = append(seen, s)
+	})
+	post := verifC16Snapshot()
+	for _, s := range seen {
+		for i := range s {
+			verifAssert(verifC16SameSet(s[i], pre[i]) || verifC16SameSet(s[i], post[i]), "C16/lookup-sees-the-state-before-or-after-an-overlapping-operation")
+		}
+	}
+}
